@@ -63,8 +63,9 @@ EmptyLayer == [empty |-> TRUE, ops |-> [f \in Files |-> OpIgnore]]
 VARIABLES hist,    \* sequence of layers [empty, ops]
           phase,   \* "build" | "trace" | "done"
           align,   \* alignment of the config history, chosen by Close
+          chain,   \* the image's chain layers as FromV1Image builds them (set by Close)
           op       \* state of PopulateLayerDetails
-vars == <<hist, phase, align, op>>
+vars == <<hist, phase, align, chain, op>>
 
 -----------------------------------------------------------------------------
 (* ---- declarative: views, introducing layer, what a layer carries ---- *)
@@ -108,7 +109,8 @@ ConfigHistory(h, al) ==
 -----------------------------------------------------------------------------
 (* ---- operational: image.go initializeChainLayers / validateHistory ---- *)
 \* a chain layer: idx = chainLayer.index, cmd = Layer().Command(), tar = ordinal of its v1 layer (0: empty
-\* layer, no diff id), upto = number of v1 layers whose content its file system holds
+\* layer, no diff id), upto = number of v1 layers whose content its file system holds; LoadChain adds
+\* fs = the chain layer's file system and diff = the files its own layer holds as regular files
 ValidateHistory(nv1, ch) == Cardinality({x \in 1..Len(ch) : ~ch[x].empty}) = nv1
 RECURSIVE WalkHistory(_, _, _, _, _)
 WalkHistory(ch, x, v1i, nv1, acc) ==      \* x: next history entry; v1i: v1 layers consumed; Len(acc) = historyIndex
@@ -126,11 +128,19 @@ InitChain(h, al) ==
   THEN [k \in 1..nv1 |-> [idx |-> k - 1, cmd |-> "", tar |-> k, upto |-> k]]     \* index-only fallback
   ELSE WalkHistory(ch, 1, 0, nv1, <<>>)
 
-\* file system of chain layer c / of its own layer
+\* file system of chain layer c / of its own layer (FromV1Image's fill; the overlay is taken from View, see C04)
 TarView(h, t, f) == IF t = 0 THEN Absent ELSE View(h, NonEmpty(h)[t], f)
-ChainView(h, ch, c, f) == IF c = 0 THEN Absent ELSE TarView(h, ch[c].upto, f)
-\* Layer().FS().Stat(f) succeeds: the layer's own tar holds f as a regular file (a whiteout node Stats as not-exist)
-InDiff(h, ch, c, f) == ch[c].tar # 0 /\ h[NonEmpty(h)[ch[c].tar]].ops[f].k = "write"
+LoadChain(h, al) ==
+  LET ic == InitChain(h, al)
+      ne == NonEmpty(h) IN
+  [c \in 1..Len(ic) |->
+     [idx |-> ic[c].idx, cmd |-> ic[c].cmd, tar |-> ic[c].tar, upto |-> ic[c].upto,
+      fs   |-> [f \in Files |-> TarView(h, ic[c].upto, f)],
+      \* Layer().FS().Stat(f) succeeds iff the layer's own tar holds f as a regular file (a whiteout node
+      \* Stats as not-exist; an empty layer has no tree)
+      diff |-> IF ic[c].tar = 0 THEN {} ELSE {f \in Files : h[ne[ic[c].tar]].ops[f].k = "write"}]]
+ChainView(ch, c, f) == IF c = 0 THEN Absent ELSE ch[c].fs[f]
+InDiff(ch, c, f) == f \in ch[c].diff
 \* what PopulateLayerDetails copies into LayerDetails for chain layer c
 ChainDetails(ch, c) == [idx |-> c - 1, cmd |-> ch[c].cmd, layer |-> ch[c].tar]
 
@@ -145,9 +155,9 @@ Pick(ch, st, pf) == [st EXCEPT !.pc = "loop", !.todo = @ \ {pf}, !.cur = pf,
                                !.i = Len(ch) - 1, !.last = Len(ch)]
 CacheKey(f, c, e) == <<f, c, IF KeyByExtractor THEN e ELSE "any">>
 \* filesystem.Run on chain layer c with Extractors = {e}, PathsToExtract = {f}
-ExtractIn(h, ch, c, f, e) == {q \in ChainView(h, ch, c, f).pk : ExtOf(q) = e}
+ExtractIn(ch, c, f, e) == {q \in ChainView(ch, c, f).pk : ExtOf(q) = e}
 
-LoopStep(h, ch, st) ==
+LoopStep(ch, st) ==
   LET p == st.cur[1]
       f == st.cur[2]
       e == ExtOf(p)
@@ -162,9 +172,9 @@ LoopStep(h, ch, st) ==
           IF p \in old THEN [st EXCEPT !.cache = cache2, !.last = c, !.i = c - 1]
           ELSE [st EXCEPT !.cache = cache2, !.pc = "pick", !.attr = @ \cup {<<p, f, st.last>>}]
     IN IF hit # {} THEN Compare((CHOOSE t \in hit : TRUE)[2], st.cache)
-       ELSE IF ~ChainView(h, ch, c, f).present THEN Compare({}, st.cache \cup {<<key, {}>>})
-       ELSE IF InDiff(h, ch, c, f)
-            THEN LET old == ExtractIn(h, ch, c, f, e) IN Compare(old, st.cache \cup {<<key, old>>})
+       ELSE IF ~ChainView(ch, c, f).present THEN Compare({}, st.cache \cup {<<key, {}>>})
+       ELSE IF InDiff(ch, c, f)
+            THEN LET old == ExtractIn(ch, c, f, e) IN Compare(old, st.cache \cup {<<key, old>>})
        ELSE [st EXCEPT !.i = c - 1]        \* file not in this layer's own diff: skip, lastScanned unchanged
 
 \* the code's order of inventory.Packages after sortResults: name, version, extractor, locations
@@ -172,41 +182,42 @@ PairSeq == [k \in 1..(Len(PSeq) * Len(FSeq)) |->
               <<PSeq[((k - 1) \div Len(FSeq)) + 1], FSeq[((k - 1) % Len(FSeq)) + 1]>>]
 NextInOrder(todo) == PairSeq[CHOOSE k \in 1..Len(PairSeq) :
                                PairSeq[k] \in todo /\ \A m \in 1..(k - 1) : PairSeq[m] \notin todo]
-RECURSIVE Run(_, _, _)
-Run(h, ch, st) == IF st.pc = "done" THEN st
-                  ELSE IF st.pc = "pick"
-                       THEN IF st.todo = {} THEN [st EXCEPT !.pc = "done"]
-                            ELSE Run(h, ch, Pick(ch, st, NextInOrder(st.todo)))
-                  ELSE Run(h, ch, LoopStep(h, ch, st))
+RECURSIVE Run(_, _)
+Run(ch, st) == IF st.pc = "done" THEN st
+               ELSE IF st.pc = "pick"
+                    THEN IF st.todo = {} THEN [st EXCEPT !.pc = "done"]
+                         ELSE Run(ch, Pick(ch, st, NextInOrder(st.todo)))
+               ELSE Run(ch, LoopStep(ch, st))
 
 -----------------------------------------------------------------------------
 (* ---- actions ---- *)
-Init == hist = <<>> /\ phase = "build" /\ align = "none" /\ op = NoOp
+Init == hist = <<>> /\ phase = "build" /\ align = "none" /\ chain = <<>> /\ op = NoOp
 
 \* layers are consistent snapshot diffs: a whiteout only for a file the view below has
 LegalOps(h, ops) == \A f \in Files : ops[f].k = "delete" => View(h, Len(h), f).present
 AddLayer(ops) == /\ phase = "build" /\ Len(hist) < MaxLayers
                  /\ LegalOps(hist, ops)
                  /\ hist' = Append(hist, [empty |-> FALSE, ops |-> ops])
-                 /\ UNCHANGED <<phase, align, op>>
+                 /\ UNCHANGED <<phase, align, chain, op>>
 AddEmptyLayer == /\ phase = "build" /\ Len(hist) < MaxLayers /\ AllowEmpty
                  /\ hist' = Append(hist, EmptyLayer)
-                 /\ UNCHANGED <<phase, align, op>>
+                 /\ UNCHANGED <<phase, align, chain, op>>
 Close(al) == /\ phase = "build" /\ NonEmpty(hist) # <<>>
              /\ align' = al
+             /\ chain' = LoadChain(hist, al)
              /\ IF Stepwise THEN phase' = "trace" /\ op' = InitOp(hist)
-                ELSE phase' = "done" /\ op' = Run(hist, InitChain(hist, al), InitOp(hist))
+                ELSE phase' = "done" /\ op' = Run(chain', InitOp(hist))
              /\ UNCHANGED hist
 \* Stepwise: one action per step of PopulateLayerDetails; the next package is any untraced one
 TracePick(pf) == /\ phase = "trace" /\ op.pc = "pick" /\ pf \in op.todo
-                 /\ op' = Pick(InitChain(hist, align), op, pf)
-                 /\ UNCHANGED <<hist, phase, align>>
+                 /\ op' = Pick(chain, op, pf)
+                 /\ UNCHANGED <<hist, phase, align, chain>>
 TraceLoop == /\ phase = "trace" /\ op.pc = "loop"
-             /\ op' = LoopStep(hist, InitChain(hist, align), op)
-             /\ UNCHANGED <<hist, phase, align>>
+             /\ op' = LoopStep(chain, op)
+             /\ UNCHANGED <<hist, phase, align, chain>>
 TraceDone == /\ phase = "trace" /\ op.pc = "pick" /\ op.todo = {}
              /\ op' = [op EXCEPT !.pc = "done"] /\ phase' = "done"
-             /\ UNCHANGED <<hist, align>>
+             /\ UNCHANGED <<hist, align, chain>>
 Next == \/ \E ops \in [Files -> Ops] : AddLayer(ops)
         \/ AddEmptyLayer
         \/ \E al \in Aligns : Close(al)
@@ -216,44 +227,47 @@ Next == \/ \E ops \in [Files -> Ops] : AddLayer(ops)
 Spec == Init /\ [][Next]_vars
 
 Done == phase = "done"
-Chain == InitChain(hist, align)
 
 -----------------------------------------------------------------------------
 (* ---- properties ---- *)
 AttrOf(st, pf) == {t \in st.attr : t[1] = pf[1] /\ t[2] = pf[2]}
-\* the model layer whose tar the attributed chain layer carries (0: none / an empty layer)
-SrcOf(h, ch, c) == IF ch[c].tar = 0 THEN 0 ELSE NonEmpty(h)[ch[c].tar]
+\* the model layer whose tar chain layer c carries (0: none, an empty layer)
+SrcOf(ne, ch, c) == IF ch[c].tar = 0 THEN 0 ELSE ne[ch[c].tar]
 
 \* C05 on the model: every package of the final view is attributed exactly once, and to a chain layer that
 \* carries exactly the index / command / diff id of its introducing layer
 Agree == Done => \A pf \in Final(hist) :
-           /\ Cardinality(AttrOf(op, pf)) = 1
-           /\ \A t \in AttrOf(op, pf) : ChainDetails(Chain, t[3]) = Details(hist, align, Intro(hist, pf[2], pf[1]))
+           LET a == AttrOf(op, pf) IN
+           /\ Cardinality(a) = 1
+           /\ \A t \in a : ChainDetails(chain, t[3]) = Details(hist, align, Intro(hist, pf[2], pf[1]))
 \* nothing else is attributed
-OnlyFinal == \A t \in op.attr : <<t[1], t[2]>> \in Final(hist)
+OnlyFinal == op.attr # {} => LET fin == Final(hist) IN \A t \in op.attr : <<t[1], t[2]>> \in fin
 \* the chain layer's own index is its position (the code copies the position, not Index())
-ChainIndexIsPosition == phase # "build" => \A c \in 1..Len(Chain) : Chain[c].idx = c - 1
-\* a matching history yields one chain layer per history entry; anything else one per v1 layer
+ChainIndexIsPosition == \A c \in 1..Len(chain) : chain[c].idx = c - 1
+\* a matching history yields one chain layer per history entry; anything else one per v1 layer; and the
+\* chain layers carry the v1 layers in order, each exactly once
 ChainShape == phase # "build" =>
-                Len(Chain) = IF align = "match" THEN Len(hist) ELSE Len(NonEmpty(hist))
+                /\ Len(chain) = IF align = "match" THEN Len(hist) ELSE Len(NonEmpty(hist))
+                /\ SelectSeq([c \in 1..Len(chain) |-> chain[c].tar], LAMBDA t : t # 0)
+                     = [t \in 1..Len(NonEmpty(hist)) |-> t]
 
 \* the lemma that makes the skip sound: the file is visible in chain layer c but not in that layer's own
 \* diff => chain layer c shows the same content as chain layer c-1
-SkipLemma == phase # "build" => \A c \in 1..Len(Chain), f \in Files :
-               (ChainView(hist, Chain, c, f).present /\ ~InDiff(hist, Chain, c, f))
-                 => ChainView(hist, Chain, c, f) = ChainView(hist, Chain, c - 1, f)
+SkipLemma == \A c \in 1..Len(chain), f \in Files :
+               (ChainView(chain, c, f).present /\ ~InDiff(chain, c, f))
+                 => ChainView(chain, c, f) = ChainView(chain, c - 1, f)
 \* the same on the history itself
 SkipLemmaHist == \A j \in 1..Len(hist), f \in Files :
                    (View(hist, j, f).present /\ hist[j].ops[f].k # "write") => View(hist, j, f) = View(hist, j - 1, f)
 
 \* the extraction cache only ever holds what the chain layer's file really contains (one extractor)
-CacheSound == (phase # "build" /\ ~TwoExtractors) =>
-                \A t \in op.cache : t[2] = ChainView(hist, Chain, t[1][2], t[1][1]).pk
+CacheSound == ~TwoExtractors => \A t \in op.cache : t[2] = ChainView(chain, t[1][2], t[1][1]).pk
 
 \* removed and re-added => attributed to the re-adding layer: the attributed layer is a real layer, later
 \* than every layer whose view lacks the package, and it wrote the file with the package in it
-ReAdded == Done => \A pf \in Final(hist) : \A t \in AttrOf(op, pf) :
-             LET L == SrcOf(hist, Chain, t[3]) IN
+ReAdded == Done => LET ne == NonEmpty(hist) IN
+           \A pf \in Final(hist) : \A t \in AttrOf(op, pf) :
+             LET L == SrcOf(ne, chain, t[3]) IN
              /\ L # 0
              /\ hist[L].ops[pf[2]].k = "write" /\ pf[1] \in hist[L].ops[pf[2]].pk
              /\ \A j \in 1..Len(hist) : ~Has(hist, j, pf[2], pf[1]) => L > j
@@ -262,27 +276,29 @@ ReAdded == Done => \A pf \in Final(hist) : \A t \in AttrOf(op, pf) :
 \* layer from the history leaves each package of the file with the same introducing layer, declaratively
 \* and operationally
 Touching(h, f) == SelectSeq([j \in 1..Len(h) |-> j], LAMBDA j : h[j].ops[f].k # "ignore")
-IgnoreNeverChanges == Done => \A f \in Files :
-    LET pos == Touching(hist, f)
-        hc  == [x \in 1..Len(pos) |-> hist[pos[x]]]
-    IN (\E p \in P : <<p, f>> \in Final(hist)) =>
-       LET chc == InitChain(hc, "match")
-           stc == Run(hc, chc, InitOp(hc))
-       IN \A p \in P : <<p, f>> \in Final(hist) =>
-            /\ <<p, f>> \in Final(hc)
+IgnoreNeverChanges == Done => LET fin == Final(hist)  ne == NonEmpty(hist) IN \A f \in Files :
+    (\E p \in P : <<p, f>> \in fin /\ Len(Touching(hist, f)) < Len(hist)) =>
+       LET pos == Touching(hist, f)
+           hc  == [x \in 1..Len(pos) |-> hist[pos[x]]]
+           chc == LoadChain(hc, "match")
+           stc == Run(chc, InitOp(hc))
+           nec == NonEmpty(hc)
+           finc == Final(hc)
+       IN \A p \in P : <<p, f>> \in fin =>
+            /\ <<p, f>> \in finc
             /\ Intro(hist, f, p) = pos[Intro(hc, f, p)]
             /\ \A t \in AttrOf(op, <<p, f>>) : \A tc \in AttrOf(stc, <<p, f>>) :
-                  SrcOf(hist, Chain, t[3]) = pos[SrcOf(hc, chc, tc[3])]
+                  SrcOf(ne, chain, t[3]) = pos[SrcOf(nec, chc, tc[3])]
 
 -----------------------------------------------------------------------------
 (* ---- case emission (binding A): one case per complete history and alignment ---- *)
 Key(pf) == pf[1] \o "@" \o pf[2]
 ExpectOf(h, al) == [k \in {Key(pf) : pf \in Final(h)} |->
                       LET pf == CHOOSE x \in Final(h) : Key(x) = k IN Details(h, al, Intro(h, pf[2], pf[1]))]
-AsBuiltOf(h, al, st) == [k \in {Key(pf) : pf \in Final(h)} |->
+AsBuiltOf(h, st) == [k \in {Key(pf) : pf \in Final(h)} |->
                       LET pf == CHOOSE x \in Final(h) : Key(x) = k
                           t  == CHOOSE x \in AttrOf(st, pf) : TRUE
-                      IN ChainDetails(InitChain(h, al), t[3])]
+                      IN ChainDetails(chain, t[3])]
 LayersOf(h) == [j \in 1..Len(h) |-> [empty |-> h[j].empty, cmd |-> Cmd(j),
                                      ops |-> [f \in {g \in Files : h[j].ops[g].k # "ignore"} |->
                                                 [k |-> h[j].ops[f].k, pk |-> h[j].ops[f].pk]]]]
@@ -293,7 +309,7 @@ Case == IF TwoExtractors
         THEN [files |-> FSeq, layers |-> LayersOf(hist), history |-> align, n |-> Len(hist),
               second |-> PSeq[Len(PSeq)],
               nontrivial |-> Nontrivial(hist), expect |-> ExpectOf(hist, align),
-              asbuilt |-> AsBuiltOf(hist, align, op)]
+              asbuilt |-> AsBuiltOf(hist, op)]
         ELSE [files |-> FSeq, layers |-> LayersOf(hist), history |-> align, n |-> Len(hist),
               nontrivial |-> Nontrivial(hist), expect |-> ExpectOf(hist, align)]
 Emit == Done => PrintT(ToJson(Case))
